@@ -2,6 +2,7 @@ package proto
 
 import (
 	"encoding/binary"
+	"math"
 
 	"github.com/go-faster/errors"
 )
@@ -139,6 +140,9 @@ func (c *ColStr) DecodeColumn(r *Reader, rows int) error {
 			return errors.Wrapf(err, "row %d: read length", i)
 		}
 
+		if n > math.MaxInt-p.End {
+			return errors.Errorf("row %d: size %d overflows", i, n)
+		}
 		p.Start = p.End
 		p.End += n
 
@@ -149,6 +153,25 @@ func (c *ColStr) DecodeColumn(r *Reader, rows int) error {
 				an = n * (rows - i)
 			} else {
 				an = n
+			}
+			if an > maxStrPrealloc {
+				// The length comes from the wire and may be corrupted or
+				// hostile: grow in bounded steps as the data arrives.
+				c.Buf = c.Buf[:p.Start]
+				for len(c.Buf) < p.End {
+					start := len(c.Buf)
+					chunk := p.End - start
+					if chunk > maxStrPrealloc {
+						chunk = maxStrPrealloc
+					}
+					c.Buf = append(c.Buf, make([]byte, chunk)...)
+					if err := r.ReadFull(c.Buf[start:]); err != nil {
+						return errors.Wrapf(err, "row %d: read full", i)
+					}
+				}
+				c.Buf = c.Buf[:cap(c.Buf)]
+				c.Pos = append(c.Pos, p)
+				continue
 			}
 			c.Buf = append(c.Buf, make([]byte, an)...)
 		}
